@@ -1075,6 +1075,19 @@ def _to_bytes(it, S, t, callee, args):
 PREFIX_MODELS.append((lambda name, c: _TO_BYTES.match(name) is not None, _to_bytes))
 
 
+@model("core::f64::<impl f64>::to_be_bytes", "core::f64::<impl f64>::to_le_bytes", "core::f32::<impl f32>::to_be_bytes", "core::f32::<impl f32>::to_le_bytes")
+def m_float_to_bytes(it, S, t, callee, args):
+    # f.to_be_bytes() == f.to_bits().to_be_bytes() (std documentation)
+    name = norm_name(callee.get("pretty"))
+    order = "be" if "to_be_bytes" in name else "le"
+    ity, n = ("u64", 8) if "f64" in name else ("u32", 4)
+    bits = ("model", "float-bits", args[0])
+    set_ty(bits, ity)
+    R = ("model", "int-bytes", order, ity, bits)
+    set_ty(R, tykey(Place(t["dest"]).ty))
+    return ("upd", R, (((("len",),), U(n)),))
+
+
 @model("core::f64::<impl f64>::to_bits", "core::f32::<impl f32>::to_bits")
 def m_to_bits(it, S, t, callee, args):
     R = ("model", "float-bits", args[0])
@@ -1203,7 +1216,7 @@ def _apply_fn_item(it, S, t, fn_op, x):
         if isinstance(x, tuple) and x[0] == "agg" and x[1] == "core::cmp::Ordering":
             return ORDERING(2 - x[2])
         return ("model", "reverse", x)
-    if fname.endswith("Option::Some") or fname.endswith("option::Option::<T>::Some"):
+    if re.search(r"[Oo]ption::Option(::<.*>)?::Some$", fname) or fname.endswith("Option::Some"):
         return ("agg", "core::option::Option", 1, (x,))
     return None
 
@@ -1221,6 +1234,58 @@ def m_option_map(it, S, t, callee, args):
         if y is not None:
             return ("agg", "core::option::Option", 1, (y,))
     return None
+
+
+@model("core::result::Result::map")
+def m_result_map(it, S, t, callee, args):
+    # Ok(x) -> Ok(f(x)), Err(e) -> Err(e); decided here only for function items that are pure value maps (Some, From::from ..)
+    if len(args) < 2 or not (isinstance(t["args"][1], dict) and "k" in t["args"][1]):
+        return None
+    v = args[0]
+    w = v
+    while isinstance(w, tuple) and w[0] == "upd" and isinstance(w[1], tuple) and w[1][0] == "agg":
+        w = w[1]
+    if isinstance(w, tuple) and w[0] == "agg" and w[1] == "core::result::Result" and w[2] is not None:
+        if w[2] == 1:
+            return v
+        y = _apply_fn_item(it, S, t, t["args"][1], w[3][0])
+        if y is not None:
+            return ("agg", "core::result::Result", 0, (y,))
+        return None
+    okp = project(v, (("dc", 0, "Ok"), ("f", 0, "0")))
+    y = _apply_fn_item(it, S, t, t["args"][1], okp)
+    if y is None:
+        return None
+    R = ("call", it.site(), callee.get("path"))
+    set_ty(R, tykey(Place(t["dest"]).ty))
+    dv, dr = it.discr_of(S, v, it.op_type(t["args"][0])), ("discr", R)
+    for val in (0, 1):
+        it.cond[(dr, val)] = [("dom", dv, Dom(val, val))]
+    d = S.dom(dv)
+    S.set_dom(dr, Dom(max(d.lo, 0), min(d.hi, 1)))
+    return ("upd", R, (((("dc", 0, "Ok"), ("f", 0, "0")), y), ((("dc", 1, "Err"), ("f", 0, "0")), project(v, (("dc", 1, "Err"), ("f", 0, "0"))))))
+
+
+@model("core::result::Result::map_err")
+def m_result_map_err(it, S, t, callee, args):
+    # Ok(x) -> Ok(x), Err(e) -> Err(f(e)): the success value passes through unchanged whatever f is (the closure is analysed as
+    # its own body; it only sees the error)
+    v = args[0]
+    w = v
+    while isinstance(w, tuple) and w[0] == "upd" and isinstance(w[1], tuple) and w[1][0] == "agg":
+        w = w[1]
+    if isinstance(w, tuple) and w[0] == "agg" and w[1] == "core::result::Result" and w[2] == 0:
+        return v
+    R = ("call", it.site(), callee.get("path"))
+    set_ty(R, tykey(Place(t["dest"]).ty))
+    dv, dr = it.discr_of(S, v, it.op_type(t["args"][0])), ("discr", R)
+    # facts that were conditional on the original's variant hold for the mapped value's variant as well
+    for val in (0, 1):
+        it.cond[(dr, val)] = [("dom", dv, Dom(val, val))] + list(it.cond.get((dv, val), []))
+    d = S.dom(dv)
+    S.set_dom(dr, Dom(max(d.lo, 0), min(d.hi, 1)))
+    it.havoc_args(S, t, args[1:]) if False else None
+    return ("upd", R, (((("dc", 0, "Ok"), ("f", 0, "0")), project(v, (("dc", 0, "Ok"), ("f", 0, "0")))),))
 
 
 @model("core::option::Option::ok_or")
